@@ -48,6 +48,7 @@ type Contract struct {
 	Modifies []*Clause
 	Loops    map[int]*LoopSpec
 	CallAsserts map[string][]*Clause // "callee#n" -> asserts checked before that call
+	OnOpen   map[string][]*Clause // rely: facts that hold once a receive on this channel field yielded a value
 	OnClosed map[string][]*Clause // rely: facts that hold once a receive found this channel field closed
 	Stable   []string   // channel fields nobody else closes while this function runs (rely, justified at the contract)
 	RecvInv  []*ChanInv // content invariants of channel parameters (recvinv p(v): expr)
@@ -110,6 +111,7 @@ type RawAxiom struct {
 type Specs struct {
 	RawAxioms []*RawAxiom
 	ChanInvs  []*ChanInv
+	MapInvs   []*ChanInv
 	Preds     map[string]*Pred
 	Contracts map[string]*Contract
 	Ghosts    map[string]*GhostDecl
@@ -239,6 +241,17 @@ func (S *Specs) LoadFile(path string, goFile bool) error {
 			for _, t := range strings.Fields(strings.ReplaceAll(rest, ",", " ")) {
 				cur.Props[t] = true
 			}
+		case "onopen":
+			// onopen field: expr   (rely: holds whenever a receive on this field yielded a value)
+			i := strings.Index(rest, ":")
+			if i < 0 {
+				return fmt.Errorf("%s: onopen needs ':'", src)
+			}
+			if cur.OnOpen == nil {
+				cur.OnOpen = map[string][]*Clause{}
+			}
+			fld := strings.TrimSpace(rest[:i])
+			cur.OnOpen[fld] = append(cur.OnOpen[fld], mkClause("onopen", strings.TrimSpace(rest[i+1:])))
 		case "onclosed":
 			// onclosed field: expr
 			i := strings.Index(rest, ":")
@@ -413,6 +426,14 @@ func (S *Specs) LoadFile(path string, goFile bool) error {
 			}
 			S.Preds[pd.Name] = pd
 			cur = nil
+		case "mapinv":
+			// mapinv pkg.Type.field(v): expr  — content invariant of the values stored in a map field
+			r := regexp.MustCompile(`^([\w.]+)\((\w+)\)\s*:\s*(.*)$`).FindStringSubmatch(rest)
+			if r == nil {
+				return fmt.Errorf("%s: cannot parse mapinv", src)
+			}
+			S.MapInvs = append(S.MapInvs, &ChanInv{Field: r[1], Var: r[2], C: mkClause("mapinv", r[3])})
+			cur = nil
 		case "chaninv":
 			// chaninv mqtt.Client.writeSem(v): expr
 			r := regexp.MustCompile(`^([\w.]+)\((\w+)\)\s*:\s*(.*)$`).FindStringSubmatch(rest)
@@ -457,6 +478,9 @@ func (S *Specs) Finish() error {
 		for _, cs := range c.OnClosed {
 			all = append(all, cs...)
 		}
+		for _, cs := range c.OnOpen {
+			all = append(all, cs...)
+		}
 		for _, l := range c.Loops {
 			for _, lt := range l.Lets {
 				all = append(all, lt.C)
@@ -478,6 +502,9 @@ func (S *Specs) Finish() error {
 	}
 	for _, pd := range S.Preds {
 		all = append(all, pd.C)
+	}
+	for _, mi := range S.MapInvs {
+		all = append(all, mi.C)
 	}
 	all = append(all, S.Axioms...)
 	all = append(all, S.Globals...)
